@@ -72,7 +72,8 @@ def pick(rng, seq):
 FUNC_CELLS = [{'decl': d, 'coloring': c, 'method': m} for m in ('cs', 'jax', 'fd') for c in (False, True)
               for d in ('all', 'pairs')]
 JAX_CELLS = [{'decl': d, 'coloring': c, 'matrix_free': False} for c in (False, True) for d in ('none', 'all', 'pairs')] + \
-    [{'decl': 'none', 'coloring': False, 'matrix_free': True}, {'decl': 'all', 'coloring': False, 'matrix_free': True}]
+    [{'decl': 'none', 'coloring': False, 'matrix_free': True}, {'decl': 'all', 'coloring': False, 'matrix_free': True}] + \
+    [{'decl': 'none', 'coloring': c, 'matrix_free': False} for c in (False, True)]   # inferred partials: double weight
 
 
 def cells_of(kind):
@@ -87,10 +88,13 @@ def gen_case(rng, kind, lite=False, cell=None):
     """One case.  lite: small functions (quick tier); cell: configuration entries that are imposed."""
     jaxkind = kind.startswith('Jax')
     with_static = bool(rng.random() < 0.3)
+    # quick tier: the jax components whose partials are inferred from the source get the function style that the
+    # inference has to see through (method forms on compound receivers)
+    methods = bool(lite and jaxkind and cell and cell.get('decl') == 'none' and not cell.get('matrix_free'))
     if kind in ('ExplicitFuncComp', 'JaxExplicitComponent'):
-        fd = F.gen_explicit(rng, with_static=with_static, lite=lite)
+        fd = F.gen_explicit(rng, with_static=with_static, lite=lite, methods=methods)
     else:
-        fd = F.gen_implicit(rng, with_static=with_static, lite=lite)
+        fd = F.gen_implicit(rng, with_static=with_static, lite=lite, methods=methods)
     cfg = {'mode': str(pick(rng, ['fwd', 'rev'])), 'use_jit': bool(rng.random() < 0.5),
            'coloring': bool(rng.random() < 0.55), 'static_val': float(np.round(rng.uniform(0.5, 2.0), 3)),
            'shape_decl': str(pick(rng, ['shape', 'val']))}
